@@ -327,14 +327,21 @@ class Facts:
         (r"^config::context::Context::(new|read_cached_next_reference_id|cache_next_reference_id)$", r"^config::context::",
          r"::(new|read_cached_next_reference_id|cache_next_reference_id)$|::default_\w+$", "sync"),
         (r"^(main|setup_context)$", r"^[a-z_0-9]+$|^ProgArgs::|^<ProgArgs", r"^(main|setup_context)$", "sync"),
+        (r"^parser::rust_parser::rust_log_ref_finder::macro_of_interest$", r"^parser::rust_parser::rust_log_ref_finder::", r"::(find|macro_of_interest)$", "sync"),
+        (r"^parser::code_parser::(check_for_boolean_directive|check_for_ignore_directive|check_for_no_kvp_directive|find_references)$", r"^parser::code_parser::",
+         r"::(check_for_boolean_directive|check_for_ignore_directive|check_for_no_kvp_directive|find_references|get_name_for_ref_kvp_key)$|LogRefEntry|CodePosition", "sync"),
+        (r"^parser::code_parser::LogRefEntry::(extract_reference|usable_reference_position|insertable_reference_string)$", r"^parser::code_parser::",
+         r"LogRefEntry::(new|exists|reference|position|kind|extract_reference|usable_reference_position|insertable_reference_string)$|CodePosition|::(check_for_\w+|find_references|get_name_for_ref_kvp_key)$", "sync"),
+        (r"^codegen::generate::load_code::\{closure#0\}$", r"^codegen::generate::", _MAP_EXCL, "sync+async"),
         (r"^codegen::finder::CodeFinder::<'\w+>::(find|new)$", r"^codegen::finder::", r"CodeFinder::<'\w+>::(find|new)$|CodeFile::new$", "sync"),
         (r"^<codegen::generate::\w+ as codegen::generate::ReferenceProcessor<.*>>::map::\{closure#0\}$", r"^codegen::generate::|^<codegen::generate::", _MAP_EXCL, "sync+async"),
+        (r"^<codegen::generate::\w+ as codegen::generate::ReferenceProcessor<.*>>::map::\{closure#0\}::\{closure#\d+\}$", r"^codegen::generate::|^<codegen::generate::", _MAP_EXCL, "sync"),
         (r"^codegen::generate::AsyncTempFile::new::\{closure#0\}$", r"^codegen::generate::|^<codegen::generate::", _MAP_EXCL, "sync+async"),
         (r"^codegen::generate::process_references::\{closure#0\}$", r"^codegen::generate::|^<codegen::generate::", _MAP_EXCL, "sync+async"),
     ]
 
     def _inline_anchors(self):
-        from .inline import inline_calls, inline_async
+        from .inline import inline_calls, inline_async, desugar_combinators
         for (anchor_pat, mod_pat, exclude_pat, kinds) in self.INLINE_ANCHORS:
             for b in list(self.bodies):
                 if not re.search(anchor_pat, b.id):
@@ -360,9 +367,12 @@ class Facts:
                 for _ in range(4):
                     n1 = inline_calls(self, nb, ok_sync)
                     n2 = inline_async(self, n1, ok_any) if kinds != "sync" else n1
-                    if n2 is nb:
+                    # the processors' map bodies keep `filter(..)` / `any(..)` as calls: the selection rules (C05-R1) read
+                    # the predicate closures themselves
+                    n3 = desugar_combinators(self, n2, iterators=not re.search(r"ReferenceProcessor<.*>>::map::", b.id))
+                    if n3 is nb:
                         break
-                    nb = n2
+                    nb = n3
                 if nb is not b:
                     self.inlined[b.id] = b
                     self.by_id[b.id] = nb
